@@ -5,9 +5,14 @@ def table(rows):
     """rows: iterable of (date, geo, value).  Returns (sorted dates, {str(geo): [values]})."""
     dates = sorted({r[0] for r in rows})
     pos = {d: i for i, d in enumerate(dates)}
+    acc = {}
+    for d, g, v in rows:           # several rows for one (geo, date) are averaged (pivot_table's documented default)
+        a = acc.setdefault((str(g), pos[d]), [0.0, 0])
+        a[0] += float(v)
+        a[1] += 1
     tab = {}
-    for d, g, v in rows:
-        tab.setdefault(str(g), [0.0] * len(dates))[pos[d]] = float(v)
+    for (g, i), (sm, n) in acc.items():
+        tab.setdefault(g, [0.0] * len(dates))[i] = sm / n
     return dates, tab
 
 
